@@ -1,10 +1,10 @@
 """correspondence stream `valid` (C17): the real validators of magpylib/_src/input_checks.py and the real attribute
 setters / constructors against Model/Validators.lean, on values drawn from the PyVal grammar.
 
-A value is a tagged tuple  ("N",) | ("T",) | ("F",) | ("I", n) | ("BT",) | ("BF",) | ("C",) | ("O",) | ("S", text)
-| ("L", [values]) | ("A", shape, data).  `enc` writes it as driver tokens, `to_py` builds the Python object (choosing
-list/tuple, int/float/numpy scalar, the ndarray dtype at random: the model treats these alike, so the stream also
-checks that the code does).  Only integer-valued numbers occur, so ok/error kind, stored shape and stored data are
+A value is a tagged tuple  ("N",) | ("T",) | ("F",) | ("I", n) | ("FL", n) | ("NAN",) | ("BT",) | ("BF",) | ("C",) | ("O",)
+| ("S", text) | ("L", [values]) | ("A", shape, data).  `enc` writes it as driver tokens, `to_py` builds the Python object
+(choosing list/tuple, Python/numpy scalar type within int ("I") or float ("FL", "NAN"), the ndarray dtype at random: the
+model treats these alike, so the stream also checks that the code does).  Only integer-valued numbers occur, so ok/error kind, stored shape and stored data are
 compared exactly ("nan" as a symbol)."""
 import math
 import warnings
@@ -21,10 +21,12 @@ INTS = [0, 1, 2, 3, -1, -2, 5, 4, 90, 360, 361, -360, 30, 400, 7, -90]
 # ---------------------------------------------------------------- encoding / realisation
 def enc(t):
     k = t[0]
-    if k in ("N", "T", "F", "BT", "BF", "C", "O"):
+    if k in ("N", "T", "F", "BT", "BF", "C", "O", "NAN"):
         return k
-    if k == "I":
-        return f"I {t[1]}"
+    if k in ("I", "FL"):
+        return f"{k} {t[1]}"
+    if k == "R":
+        return f"R {t[1]} {t[2]}"
     if k == "S":
         return "S:" + t[1]
     if k == "L":
@@ -43,13 +45,26 @@ def to_py(t, rng):
     if k in ("BT", "BF"):
         return np.bool_(k == "BT")
     if k == "I":
-        return rng.choice([int, int, float, np.int64, np.float64, np.int32, np.float32])(t[1])
+        return rng.choice([int, int, np.int64, np.int32])(t[1])
+    if k == "FL":
+        return rng.choice([float, float, np.float64, np.float32])(t[1])
+    if k == "NAN":
+        return rng.choice([float("nan"), np.nan, np.float64("nan"), np.float32("nan")])
     if k == "C":
-        return rng.choice([1j, complex(2, 0), complex(0, 0), -3 + 1j])
+        return rng.choice([1j, complex(2, 0), complex(0, 1), -3 + 1j])   # a complex zero is outside the grammar (anchor=0j is accepted)
     if k == "O":
         return rng.choice([{"a": 1}, object(), {1, 2}, len])
     if k == "S":
         return t[1]
+    if k == "R":
+        from scipy.spatial.transform import Rotation as R
+        n, finite = t[1], t[2]
+        rv = np.array([[rng.uniform(-2, 2) for _ in range(3)] for _ in range(max(n, 1))])
+        if not finite:
+            rv[rng.randrange(len(rv)), rng.randrange(3)] = rng.choice([np.nan, np.inf])
+        if n == 0:
+            return R.from_rotvec(rv)[:0]
+        return R.from_rotvec(rv[0]) if n == 1 and rng.random() < 0.5 else R.from_rotvec(rv)
     if k == "L":
         xs = [to_py(x, rng) for x in t[1]]
         return tuple(xs) if rng.random() < 0.4 else xs
@@ -62,18 +77,30 @@ def show(t):
     k = t[0]
     if k == "I":
         return str(t[1])
+    if k == "FL":
+        return f"{t[1]}.0"
     if k == "S":
         return repr(t[1])
+    if k == "R":
+        return f"Rotation(n={t[1]}, finite={bool(t[2])})"
     if k == "L":
         return "[" + ", ".join(show(x) for x in t[1]) + "]"
     if k == "A":
         return f"ndarray(shape={tuple(t[1])}, data={t[2]})"
-    return {"N": "None", "T": "True", "F": "False", "BT": "np.True_", "BF": "np.False_", "C": "<complex>", "O": "<object>"}[k]
+    return {"N": "None", "T": "True", "F": "False", "BT": "np.True_", "BF": "np.False_", "C": "<complex>", "O": "<object>", "NAN": "nan"}[k]
 
 
 # ---------------------------------------------------------------- generators
 def I(n):
     return ("I", n)
+
+
+def FL(n):
+    return ("FL", n)
+
+
+NAN = ("NAN",)
+NONE3 = ("L", [("N",), ("N",), ("N",)])
 
 
 def L(*xs):
@@ -87,15 +114,15 @@ def nums(*ns):
 def leaf(rng, good=0.8):
     r = rng.random()
     if r < good:
-        return ("I", rng.choice(INTS) if rng.random() < 0.6 else rng.randint(-4, 9))
-    return rng.choice([("N",), ("T",), ("F",), ("BT",), ("BF",), ("C",), ("O",), ("S", rng.choice(STRINGS)), ("S", rng.choice(STRINGS)),
-                       ("I", 0), ("I", -1)])
+        return (rng.choice(["I", "I", "FL"]), rng.choice(INTS) if rng.random() < 0.6 else rng.randint(-4, 9))
+    return rng.choice([("N",), ("N",), ("T",), ("F",), ("BT",), ("BF",), ("C",), ("O",), ("S", rng.choice(STRINGS)), ("S", rng.choice(STRINGS)),
+                       ("I", 0), ("FL", -1), NAN])
 
 
 def rect(rng, shape, good=0.93, pos=False):
     if not shape:
         if pos and rng.random() < 0.9:
-            return ("I", rng.randint(1, 6))
+            return (rng.choice(["I", "I", "FL"]), rng.randint(1, 6))
         return leaf(rng, good)
     return ("L", [rect(rng, shape[1:], good, pos) for _ in range(shape[0])])
 
@@ -151,6 +178,24 @@ def shaped(rng, shapes, pos=False):
     if r < 0.9:
         return mutate(rng, v)
     return anyval(rng)
+
+
+def poly_vertices(rng):
+    """Polyline.vertices: rows of three numbers with separator rows (None, None, None); sometimes one defect: a partly-None row, a
+    None row of another length, a None row one level deeper"""
+    n = rng.choice([1, 2, 3, 4, 6])
+    rows = [rect(rng, [3], 0.97) if rng.random() < 0.65 else NONE3 for _ in range(n)]
+    r = rng.random()
+    if r < 0.12 and rows:
+        i = rng.randrange(len(rows))
+        rows[i] = ("L", [rng.choice([("N",), I(1), NAN]) for _ in range(3)])
+    elif r < 0.2 and rows:
+        rows[rng.randrange(len(rows))] = ("L", [("N",)] * rng.choice([0, 1, 2, 4]))
+    elif r < 0.26:
+        return L(("L", rows))
+    elif r < 0.32 and rows:
+        rows[rng.randrange(len(rows))] = rng.choice([("N",), ("A", [3], [1, 2, 3]), ("S", "abc"), L(NONE3)])
+    return ("L", rows)
 
 
 def segment(rng):
@@ -211,6 +256,8 @@ def gen_for(rng, cmd):
             return shaped(rng, [[2], [2], [2], [3], [1], [1, 2], [0]], pos=True)
         if (c, a) == ("CylinderSegment", "dimension"):
             return segment(rng) if rng.random() < 0.85 else shaped(rng, [[5], [4], [6], [1, 5]])
+        if (c, a) == ("Polyline", "vertices") and rng.random() < 0.5:
+            return poly_vertices(rng)
         if a == "vertices":
             return shaped(rng, ROWS + {"Triangle": [[3, 3]] * 6, "Tetrahedron": [[4, 3]] * 6}.get(c, []))
         if a == "pixel":
@@ -218,6 +265,8 @@ def gen_for(rng, cmd):
         return shaped(rng, NEAR3)
     if head == "cylseg":
         return segment(rng) if rng.random() < 0.85 else shaped(rng, [[5], [4], [6], [1, 5]])
+    if rng.random() < (0.5 if head == "vertices" else 0.08) and head in ("vertices", "triangle", "tetrahedron", "position", "pixel", "vector2"):
+        return poly_vertices(rng)      # None rows are separators for Polyline.vertices only
     if head in ("vertices", "triangle", "tetrahedron"):
         return shaped(rng, ROWS + {"triangle": [[3, 3]] * 6, "tetrahedron": [[4, 3]] * 6}.get(head, []))
     if head == "position":
@@ -226,6 +275,24 @@ def gen_for(rng, cmd):
         return shaped(rng, PIX)
     if head == "handedness":
         return rng.choice([("S", "right"), ("S", "left"), ("S", rng.choice(STRINGS)), leaf(rng, 0.3), L(("S", "right")), anyval(rng, 1)])
+    if head == "start":
+        return rng.choice([I(rng.randint(-3, 5)), FL(rng.randint(-3, 5)), ("S", "auto"), ("S", rng.choice(STRINGS + ["Auto", "auto "])), leaf(rng, 0.2), anyval(rng, 1)])
+    if head == "degrees":
+        return rng.choice([("T",), ("F",), ("BT",), ("BF",), I(0), I(1), leaf(rng, 0.2), anyval(rng, 1)])
+    if head == "field":
+        return rng.choice([("S", rng.choice("BHMJ")), ("S", rng.choice(["b", "BH", "", "x", "B ", "MJ"] + STRINGS)), leaf(rng, 0.2), L(("S", "B")), anyval(rng, 1)])
+    if head == "output":
+        return rng.choice([("S", "ndarray"), ("S", "dataframe"), ("S", rng.choice(["Ndarray", "array", "", "dataframe "] + STRINGS)), leaf(rng, 0.2), L(("S", "ndarray")), anyval(rng, 1)])
+    if head == "anchor":
+        return rng.choice([I(0), FL(0), ("F",), ("T",), I(1), ("N",), leaf(rng, 0.3), shaped(rng, ROWS + [[3]] * 4), shaped(rng, ROWS + [[3]] * 4), ("A", [0, 3], [])])
+    if head == "angle":
+        return rng.choice([leaf(rng, 0.6), leaf(rng, 0.6), shaped(rng, [[0], [1], [2], [3], [5], [1, 2], [2, 1], []]), shaped(rng, [[1], [3], [4]]), anyval(rng, 2)])
+    if head == "axis":
+        return rng.choice([("S", rng.choice("xyz")), ("S", rng.choice(["X", "xy", "", "zz"] + STRINGS)), shaped(rng, NEAR3), shaped(rng, NEAR3), nums(0, 0, 0), L(I(0), FL(0), I(0)),
+                           ("A", [3], [0, 0, 0]), L(NAN, I(0), I(0)), leaf(rng, 0.3)])
+    if head == "orientation":
+        return rng.choice([("N",), ("R", 1, 1), ("R", rng.choice([0, 1, 2, 3, 5]), 1), ("R", rng.choice([1, 2, 4]), 0), ("R", 0, 1), leaf(rng, 0.3), nums(0, 0, 0, 1), ("A", [4], [0, 0, 0, 1]),
+                           L(("R", 1, 1)), anyval(rng, 1)])
     if head == "vector2":
         return shaped(rng, [[1, 3, 3], [2, 3, 3], [4, 3, 3], [3, 3], [3], [2, 3, 2], [2, 2, 3], [0, 3, 3], [2, 3, 3, 1], [0], [2, 3]])
     if head == "vector":
@@ -262,6 +329,17 @@ def edge_values():
                 (0, 1, 0, 0, 90), (0, 1, -1, 0, 90), (1, 2, 1, 90, 90), (1, 2, 1, 90, 0), (1, 2, 1, -360, 0), (1, 2, 1, -361, 0), (1, 2, 1, 400, 500),
                 (0, 1, 1, -180, 180), (0, -1, 1, 0, 90), (1, 2, 1, 0), (1, 2, 1, 0, 90, 5)]:
         vs.append(nums(*seg))
+    # numbers as float, nan given as a float; None rows (segment separators of Polyline.vertices, refused everywhere else)
+    vs += [FL(0), FL(1), FL(-1), NAN, L(FL(1), I(2), FL(3)), L(I(1), NAN, I(3)), L(NAN, NAN, NAN), L(nums(1, 2, 3), L(NAN, NAN, NAN)),
+           L(I(1), I(2), I(1), NAN, I(90)), NONE3, L(NONE3), L(NONE3, NONE3), L(NONE3, NONE3, NONE3), L(nums(0, 0, 0), NONE3, nums(1, 0, 0)),
+           L(NONE3, nums(0, 0, 0), nums(0, 0, 1), NONE3, NONE3, nums(1, 0, 0), nums(1, 0, 1), NONE3), L(nums(0, 0, 0), L(I(1), ("N",), I(3))),
+           L(nums(0, 0, 0), L(("N",), ("N",), I(3)), nums(1, 1, 1)), L(L(("N",), ("N",)), L(("N",), ("N",))), L(NONE3, nums(1, 2)),
+           L(NONE3, L(("S", "a"), ("S", "b"), ("S", "c"))), L(NONE3, ("A", [3], [1, 2, 3])), L(L(NONE3, NONE3), L(NONE3, NONE3)),
+           L(nums(0, 0, 0), ("N",)), L(NONE3, NONE3, NONE3, NONE3), L(L(("N",)) , L(("N",))), L(nums(1, 2, 3), L(("S", "1"), ("S", "2"), ("S", "3")))]
+    # Rotation objects (orientation), argument strings, empty angle / anchor arrays
+    vs += [("R", 1, 1), ("R", 2, 1), ("R", 0, 1), ("R", 1, 0), ("R", 3, 0), L(("R", 1, 1)), ("S", "auto"), ("S", "Auto"), ("S", "B"), ("S", "H"), ("S", "M"), ("S", "J"),
+           ("S", "BH"), ("S", "b"), ("S", "ndarray"), ("S", "dataframe"), ("S", "x"), ("S", "y"), ("S", "z"), ("S", "X"), ("S", "xy"), nums(0, 0, 0), L(FL(0), FL(0), FL(0)),
+           L(NAN, I(0), I(0)), ("A", [3], [0, 0, 0]), ("A", [0], []), ("A", [4], [0, 0, 0, 1]), nums(0, 0, 0, 1), L(I(0), ("F",), I(0)), I(45), FL(90), I(-3)]
     vs += [L(I(1), I(2), I(1), ("N",), I(90)), L(("N",), I(2), I(1), I(0), I(90)), L(I(1), I(2), ("S", "1"), I(0), I(90)), L(I(1), I(2), ("T",), I(0), I(90)),
            L(I(1), I(2), ("F",), I(0), I(90)), L(nums(1, 2, 1, 0, 90))]
     return vs
@@ -269,6 +347,7 @@ def edge_values():
 
 def commands():
     cmds = [f"scalar {a} {f}" for a in (0, 1) for f in (0, 1)]
+    cmds += ["start", "degrees", "field", "output", "anchor", "angle", "axis", "orientation 0", "orientation 1"]
     cmds += ["vertices", "cylseg", "pixel", "handedness", "triangle", "tetrahedron", "position", "vector2 3 -1 3 3", "vector2 2 3 -1",
              "vector 1 1 3 0 0 1 1", "vector 1 1 2 0 0 1 1", "vector 1 1 3 0 0 0 0", "vector 2 1 2 3 0 1 0 0", "vector 1 2 3 3 0 1 0", "vector 1 1 -1 0 0 0 0",
              "vector 2 0 1 3 0 0 0 0", "vector 2 0 1 -1 2 0 0 0", "vector 2 0 1 -1 0 1 0 0", "vector 1 2 2 0 1 0 0"]
@@ -358,6 +437,16 @@ def run_real(cmd, val, rng, objects, via_ctor):
             elif p[0] == "vector2":
                 n = int(p[1])
                 res = ic.check_format_input_vector2(val, shape=[None if int(x) < 0 else int(x) for x in p[2:2 + n]], param_name="mesh")
+            elif p[0] in ("start", "degrees", "field", "output", "anchor", "angle", "axis"):
+                fn = {"start": ic.check_start_type, "degrees": ic.check_degree_type, "field": ic.check_field_input, "output": ic.check_getBH_output_type,
+                      "anchor": ic.check_format_input_anchor, "angle": ic.check_format_input_angle, "axis": ic.check_format_input_axis}[p[0]]
+                res = fn(val)
+                if p[0] == "axis" and isinstance(val, str) and isinstance(res, np.ndarray):
+                    res = res.astype(float)      # 'x', 'y', 'z' give integer arrays
+            elif p[0] == "orientation":
+                res = ic.check_format_input_orientation(val, init_format=bool(int(p[1])))
+                q = res if bool(int(p[1])) else res[1]
+                return f"ok quats {np.reshape(q, (-1, 4)).shape[0]}", note
             elif p[0] == "vertices":
                 res = ic.check_format_input_vertices(val)
             elif p[0] == "cylseg":
